@@ -147,3 +147,7 @@ func Thorough() bool { return os.Getenv("VERIF_TIER") == "thorough" }
 
 // Emit prints a named value (selftest corpus).
 func Emit(name string, v uint64) { fmt.Printf("VS-EMIT %s=%d\n", name, v) }
+
+// Trace records a named intermediate value (debugging aid; shown with counterexamples).
+func Trace(name string, v uint64)   { fmt.Printf("VS-TRACE %s=%d\n", name, v) }
+func TraceBool(name string, v bool) { fmt.Printf("VS-TRACE %s=%v\n", name, v) }
